@@ -7,6 +7,8 @@ Definition str_step (s : istr) (o : op) : res istr := C04.Model.step s o.
 Definition str_pre_ok (s : istr) (o : op) : bool := C04.Total.pre_ok s o.
 Definition str_make (c : Z) (src : list Z) (len : Z) : res istr := ctor_ptr c CChar src len.
 Definition str_ctor_fill (c count ch : Z) : res istr := ctor_fill c CChar count ch.
+Definition str_make_w (c : Z) (src : list Z) (len : Z) : res istr := ctor_ptr c CWchar src len.
+Definition str_ctor_fill_w (c count ch : Z) : res istr := ctor_fill c CWchar count ch.
 Definition str_size (s : istr) : Z := get_size s.
 Definition str_index (s : istr) (i : Z) : res Z := index_m s i.
 Definition str_front (s : istr) : res Z := front_m s.
